@@ -92,7 +92,7 @@ pub fn bed6v(g: &GenomicRange, k: usize) -> BED<6> {
 pub fn npv(g: &GenomicRange, k: usize) -> NarrowPeak {
     let mut r = np(g);
     r.strand = match k % 3 { 0 => None, 1 => Some(Strand::Forward), _ => Some(Strand::Reverse) };
-    r.signal_value = k as f64; r.peak = 1000 - k as u64; r.name = if k % 2 == 0 { None } else { Some("q".into()) };
+    r.signal_value = k as f64; r.peak = 1000 + k as u64; r.name = if k % 2 == 0 { None } else { Some("q".into()) };
     r
 }
 
